@@ -1,6 +1,6 @@
 #!/bin/sh
 # usage: tools/try_patch.sh <patch> <property> [tier]  -- apply to /repo, run check, revert
-P="$1"; ID="$2"; TIER="${3:-quick}"
+P="$(readlink -f "$1")"; ID="$2"; TIER="${3:-quick}"
 cd /repo || exit 9
 git apply "$P" 2>/dev/null || git apply --3way "$P" || { echo "PATCH DOES NOT APPLY"; git checkout HEAD -- . ; exit 9; }
 cd /verif
